@@ -157,9 +157,13 @@ def run(ctx) -> None:
         t = norm(nn.ast)
         neg = t.startswith("not ")
         for q in ("is_cancelled()", "is_finalized()", "is_initialized()", "is_execution_started()", "is_execution_complete()"):
-            if t in (f"uod_command.{q}", f"not uod_command.{q}"):
+            if any(t in (f"{iv}.{q}", f"not {iv}.{q}") for iv in inst_vars):
                 return lab == ("F" if neg else "T")
         return False
+    # the local(s) holding the acquired instance (by role: assigned from create_command/get_command)
+    inst_vars = {norm(n.ast.targets[0]) for n in creates + gets if isinstance(n.ast, ast.Assign) and len(n.ast.targets) == 1}
+    if not inst_vars:
+        raise AnchorError("_execute_uod_command: the local holding the command instance was not found")
     for n in creates:
         p = g.search([(n.id, "")], lambda x: x.id in (g.exit.id, g.raise_exit.id), blocked=settles, blocked_edge=fresh_infeasible)
         inst = "_execute_uod_command: a freshly created instance is executing or finalized on every exit"
